@@ -347,6 +347,14 @@ class Ctx:
             self.add_violation(sub, case, f2)
         except hypothesis.errors.FailedHealthCheck as e:
             raise HarnessError(f"{sub}: generator health check failed: {e}") from e
+        except hypothesis.errors.Flaky as e:
+            # The harness keeps no state between cases, so an outcome that changes on re-execution means the library
+            # carried state from one case into another. A genuine Failure was observed on a concrete case: report that.
+            if state["best"] is None:
+                raise HarnessError(f"{sub}: flaky without a recorded failure: {e}") from e
+            case, f2 = state["best"]
+            f2.msg = f2.msg + "  [not reproducible on immediate re-execution: state leaks between cases inside the library]"
+            self.add_violation(sub, case, f2)
 
     def add_violation(self, sub, case, f: Failure) -> int:
         sig = getattr(f, "full_sig", f"{sub}:{f.sig}")
